@@ -328,6 +328,15 @@ func (m *MetricMapper) InitFromFile(fileName string) error {
 	return m.InitFromYAMLString(string(mappingStr))
 }
 
+// GetDefaults returns the defaults of the currently loaded configuration.
+// Unlike reading the Defaults field directly it is safe to call while the
+// configuration is being reloaded.
+func (m *MetricMapper) GetDefaults() MapperConfigDefaults {
+	m.mutex.RLock()
+	defer m.mutex.RUnlock()
+	return m.Defaults
+}
+
 // UseCache tells the mapper to use a cache that implements the MetricMapperCache interface.
 // This cache MUST be thread-safe!
 func (m *MetricMapper) UseCache(cache MetricMapperCache) {
